@@ -131,6 +131,8 @@ func rawState(l *sqlLexer) stateFn {
 			return singleQuoteState
 		case '"':
 			return doubleQuoteState
+		case '`':
+			return backtickState
 		case '$':
 			nextRune, _ := utf8.DecodeRuneInString(l.src[l.pos:])
 			if '0' <= nextRune && nextRune <= '9' {
@@ -197,6 +199,32 @@ func doubleQuoteState(l *sqlLexer) stateFn {
 		case '"':
 			nextRune, width := utf8.DecodeRuneInString(l.src[l.pos:])
 			if nextRune != '"' {
+				return rawState
+			}
+			l.pos += width
+		case utf8.RuneError:
+			if width != replacementcharacterwidth {
+				if l.pos-l.start > 0 {
+					l.parts = append(l.parts, l.src[l.start:l.pos])
+					l.start = l.pos
+				}
+				return nil
+			}
+		}
+	}
+}
+
+// backtickState consumes a backtick-quoted identifier, the quoting style of the dialect this
+// library parses; a placeholder inside it is part of the name.
+func backtickState(l *sqlLexer) stateFn {
+	for {
+		r, width := utf8.DecodeRuneInString(l.src[l.pos:])
+		l.pos += width
+
+		switch r {
+		case '`':
+			nextRune, width := utf8.DecodeRuneInString(l.src[l.pos:])
+			if nextRune != '`' {
 				return rawState
 			}
 			l.pos += width
